@@ -3,6 +3,8 @@
 // replies are generated datagrams handed to the protected `onUdpRecv` through a probe subclass,
 // each in a heap block of exactly its size (an over-read is an ASan report); `tick` advances the
 // virtual monotonic clock by one second and lets the loop run the TimeoutMonitor's timer.
+// The callback of a lookup runs a script of API calls (new lookups with their own scripts, cancels)
+// from INSIDE the callback — reply, error, all-servers-failed and timeout callbacks alike.
 // One op per loop pass.  Output format = lean/Driver/C15.lean.
 #include "vh.h"
 #include "vtime.h"
@@ -26,6 +28,11 @@ struct Probe : public DnsRequest {
 static tbox::event::Loop *loop = nullptr;
 static Probe *dns = nullptr;
 static uint64_t serial = 0;
+struct ActT { char kind; uint64_t arg; };            // 'L' sid | 'C' id | 'S'
+static std::vector<std::vector<ActT>> scripts;
+static std::vector<unsigned> ids;                    // serial -> id returned by request()
+static bool touch_captures = false;                  // `touch on`: the callback uses its captures after its API calls
+static const uint64_t kNoScript = 1000000;
 
 static DnsRequest::IPAddressVec servers(unsigned n) {
     DnsRequest::IPAddressVec v;
@@ -37,6 +44,7 @@ static void reset_case() {
     delete dns;
     dns = new Probe(loop, servers(1));
     serial = 0;
+    scripts.clear(); ids.clear(); touch_captures = false;
 }
 
 static const char *status_str(DnsRequest::Result::Status s) {
@@ -51,7 +59,25 @@ static const char *status_str(DnsRequest::Result::Status s) {
     return "?";
 }
 
-static void on_result(uint64_t id, const DnsRequest::Result &r) {
+// ---- callback scripts: the callback of a lookup runs a small list of API calls (lean: Req.script)
+
+static bool parse_acts(const std::string &w, std::vector<ActT> &out) {
+    out.clear();
+    if (w == "-") return true;
+    std::stringstream ss(w); std::string t;
+    while (std::getline(ss, t, ',')) {
+        uint64_t v = 0;
+        if (t == "S") { out.push_back({'S', 0}); continue; }
+        if (t.size() < 2 || (t[0] != 'L' && t[0] != 'C') || !vh::to_u64(t.substr(1), v)) return false;
+        if (t[0] == 'L' ? v >= 64 : v >= 65536) return false;
+        out.push_back({t[0], v});
+    }
+    return !w.empty() && w.back() != ',';
+}
+
+static unsigned do_lookup(uint64_t sid);
+
+static void on_result(uint64_t me, std::vector<ActT> sc, const DnsRequest::Result &r) {
     std::string a, c;
     for (auto &x : r.a_vec) {
         uint32_t ip = x.ip;               // in-memory image = the four address bytes in datagram order
@@ -62,8 +88,35 @@ static void on_result(uint64_t id, const DnsRequest::Result &r) {
         if (!c.empty()) c += ",";
         c += std::to_string(x.ttl) + ":" + vh::hex(x.cname.toString());
     }
-    std::cout << "P cb " << id << " " << status_str(r.status) << " a=" << (a.empty() ? "-" : a)
+    std::cout << "P cb " << me << " " << status_str(r.status) << " a=" << (a.empty() ? "-" : a)
               << " c=" << (c.empty() ? "-" : c) << std::endl;
+    for (auto &act : sc) {                             // `sc` is a copy: the closure may be destroyed by a cancel below
+        if (act.kind == 'L') {
+            std::cout << "P act " << me << " L" << act.arg << " ret=" << do_lookup(act.arg) << std::endl;
+        } else if (act.kind == 'C') {
+            std::cout << "P act " << me << " C" << act.arg << " ret=" << (dns->cancel((DnsRequest::ReqId)act.arg) ? 1 : 0) << std::endl;
+        } else {
+            unsigned own = me < ids.size() ? ids[me] : 0;
+            std::cout << "P act " << me << " S ret=" << (dns->cancel((DnsRequest::ReqId)own) ? 1 : 0) << std::endl;
+        }
+    }
+}
+
+struct Ctx { uint64_t me; std::vector<ActT> script; std::string tag; };
+
+static unsigned do_lookup(uint64_t sid) {
+    uint64_t me = serial++;
+    if (ids.size() <= me) ids.resize(me + 1, 0);
+    // the script is bound when the lookup is issued (lean: `st.scripts.getD sid []` in `lookup`)
+    Ctx ctx{me, sid < scripts.size() ? scripts[sid] : std::vector<ActT>(), std::string(40, 'x')};
+    auto id = dns->request(DomainName("verif.example.com"), [ctx](const DnsRequest::Result &r) {
+        on_result(ctx.me, ctx.script, r);             // everything needed is copied out before any API call
+        if (touch_captures) {                         // ... unless asked to behave like a callback that keeps using its captures
+            volatile char ch = ctx.tag[ctx.tag.size() - 1]; (void)ch;
+        }
+    });
+    ids[me] = (unsigned)id;
+    return (unsigned)id;
 }
 
 int main() {
@@ -78,14 +131,20 @@ int main() {
         auto w = vh::words(line);
         if (w.empty()) return true;
         if (w[0] == "case") { reset_case(); std::cout << line << std::endl; return true; }
-        uint64_t n = 0; std::vector<uint8_t> d;
+        uint64_t n = 0; std::vector<uint8_t> d; std::vector<ActT> acts;
         if (w[0] == "servers" && w.size() == 2 && vh::to_u64(w[1], n) && n < 4) {
             dns->setDnsIPAddresses(servers((unsigned)n));
             std::cout << "P ret=0" << std::endl;
         } else if (w[0] == "lookup" && w.size() == 1) {
-            uint64_t me = serial++;
-            auto id = dns->request(DomainName("verif.example.com"), [me](const DnsRequest::Result &r) { on_result(me, r); });
-            std::cout << "P ret=" << (unsigned)id << std::endl;
+            std::cout << "P ret=" << do_lookup(kNoScript) << std::endl;
+        } else if (w[0] == "lookup" && w.size() == 2 && vh::to_u64(w[1], n) && n < 64) {
+            std::cout << "P ret=" << do_lookup(n) << std::endl;
+        } else if (w[0] == "defscript" && w.size() == 2 && parse_acts(w[1], acts)) {
+            scripts.push_back(acts);
+            std::cout << "P ret=" << scripts.size() - 1 << std::endl;
+        } else if (w[0] == "touch" && w.size() == 2 && (w[1] == "on" || w[1] == "off")) {
+            touch_captures = (w[1] == "on");
+            std::cout << "P ret=0" << std::endl;
         } else if (w[0] == "cancel" && w.size() == 2 && vh::to_u64(w[1], n) && n < 65536) {
             std::cout << "P ret=" << (dns->cancel((DnsRequest::ReqId)n) ? 1 : 0) << std::endl;
         } else if (w[0] == "running" && w.size() == 2 && vh::to_u64(w[1], n) && n < 65536) {
